@@ -1257,6 +1257,7 @@ func (m c07) Run(c *fw.Ctx) {
 	s.systematic()
 	s.seeded()
 	s.scaling()
+	s.indents()
 
 	keys := make([]string, 0, len(s.slow))
 	for k := range s.slow {
@@ -1976,6 +1977,85 @@ func (s *c07State) seeded() {
 				}
 			}
 			s.run(k)
+		}
+	}
+}
+
+// c07FieldNames are the header fields and subfields of a GenBank record that
+// the reader knows by name.
+var c07FieldNames = map[string]bool{"DEFINITION": true, "ACCESSION": true, "VERSION": true, "DBLINK": true, "KEYWORDS": true, "SOURCE": true,
+	"ORGANISM": true, "REFERENCE": true, "AUTHORS": true, "CONSRTM": true, "TITLE": true, "JOURNAL": true, "PUBMED": true, "REMARK": true, "COMMENT": true}
+
+// indents: "fields shorter than their indent are reported as errors". Every
+// header line of the corpus records and of generated records that starts a
+// field or subfield the reader knows by name is rewritten with one blank less
+// after the name, and (subfields) with one blank less in front of it; the
+// record stands alone, first and second in a stream, with LF and CRLF line
+// ends. Reading such a stream must end in an error: an accepted record has
+// lost that field, and what follows it, without a word.
+func (s *c07State) indents() {
+	c := s.c
+	var texts []string
+	var names []string
+	for n := range s.corpus {
+		names = append(names, n)
+	}
+	sort.Strings(names)
+	for _, n := range names {
+		if t := string(s.corpus[n]); strings.HasPrefix(t, "LOCUS") {
+			texts = append(texts, strings.ReplaceAll(t, "\r\n", "\n"))
+		}
+	}
+	r := c.SubRng("c07-indents")
+	for i := 0; i < 6; i++ {
+		texts = append(texts, gen.RandGenBank(r, gen.GBOpt{MaxLen: 90, MaxFeatures: 3}, "f").String())
+	}
+	good := "LOCUS       OK 4 bp DNA linear SYN 01-JAN-2020\nDEFINITION  intact.\nORIGIN      \n        1 acgt\n//\n"
+	for ti, text := range texts {
+		lines := strings.Split(text, "\n")
+		for i, l := range lines {
+			if strings.HasPrefix(l, "FEATURES") || strings.HasPrefix(l, "ORIGIN") {
+				break
+			}
+			if i == 0 {
+				continue
+			}
+			body := strings.TrimLeft(l, " ")
+			lead := len(l) - len(body)
+			j := strings.IndexByte(body, ' ')
+			if lead >= 12 || j <= 0 || !c07FieldNames[body[:j]] {
+				continue
+			}
+			var variants []string
+			if j+1 < len(body) && body[j+1] == ' ' {
+				variants = append(variants, l[:lead]+body[:j]+body[j+1:])
+			}
+			if lead > 0 {
+				variants = append(variants, l[1:])
+			}
+			for vi, v := range variants {
+				bad := strings.Join(append(append(append([]string{}, lines[:i]...), v), lines[i+1:]...), "\n")
+				for pi, stream := range []string{bad, bad + good, good + bad} {
+					for _, eol := range []string{"\n", "\r\n"} {
+						if !c.NextShared() {
+							continue
+						}
+						in := strings.ReplaceAll(stream, "\n", eol)
+						enc := fmt.Sprintf("short indent: record %d line %d %q rewritten as %q, stream shape %d, eol %q", ti, i+1, l, v, pi, eol)
+						c.Begin(enc)
+						c.Count(fmt.Sprintf("%s|%d|%d|%d|%q", text, i, vi, pi, eol), true)
+						c.Bucket("short-indent|" + body[:j])
+						p, val, site, n, _, err := c07ScanOnce(in)
+						if p {
+							c.ViolateX("short-indent:"+panicClass(site, val), enc, "an error", fmt.Sprint(val), "", nil)
+							continue
+						}
+						if err == nil {
+							c.Violate("short-indent-accepted:"+body[:j], enc, "an error (the field is shorter than its indent)", fmt.Sprintf("%d records read, no error", n))
+						}
+					}
+				}
+			}
 		}
 	}
 }
